@@ -44,6 +44,9 @@ SKELS = [
     dict(name="uniform-window-inside-one-unit", text="OC{[<][<]CO[>][>]}|uniform(30, 50)|N", units=["[<]CO[>]"], start=1.0),
     dict(name="locally-symmetric-substituent", text="OC{[<][<]CC(F)(F)[>][>]}|uniform(0, 200)|N", units=["[<]CC(F)(F)[>]"], start=1.0),
     dict(name="heavy-isotope-unit", text="[H]{[<][<]C(N)[13CH2][>][>]}|uniform(20, 120)|CO", units=["[<]C(N)[13CH2][>]"], start=1.0),
+    # the suffix token's descriptor carries the written weight 0 (what gen_mirror prints for a former prefix): the generator picks
+    # uniformly among all-zero options, the reported probability must follow
+    dict(name="suffix-descriptor-zero-weight", text="F{[<][<]C(N)C[>][>]}|gauss(100,20)|[>|0|]CO", units=["[<]C(N)C[>]"], start=1.0),
     dict(name="poisson-block", text="[H]{[<][<]C(N)C[>][>]}|poisson(65)|CO", units=["[<]C(N)C[>]"], start=1.0),
 ]
 
@@ -242,7 +245,12 @@ def run_case(case, g, tier, res):
                         {"kind": "prob", "text": text, "smiles": smi, "ns": ns, "weights": vals, "label": label, "skel": skel["name"]})
             return build
 
-        p, _ = g.get_ensemble_prob(smi, mol)
+        try:
+            p, _ = g.get_ensemble_prob(smi, mol)
+        except Exception as e:
+            core.reraise_if_harness(e)
+            c.prove(False, "ensemble probability equals the generator's law", detail(f"get_ensemble_prob raised {type(e).__name__} for a molecule the generator produces"))
+            return "raised"
         # reference law
         first = mol._elements[0]
         if isinstance(first, g.Stochastic):
@@ -309,8 +317,14 @@ def replay(rp, gb):
     mol = gb.Molecule(rp["text"])
     gendrive.apply_role_values(gen, mol, rp["weights"])
     smi, ns = rp["smiles"], rp["ns"]
-    p = gb.get_ensemble_prob(smi, mol)[0]
     label = rp["label"]
+    if label.startswith("get_ensemble_prob raised"):
+        try:
+            gb.get_ensemble_prob(smi, mol)
+        except Exception as e:
+            return True, f"get_ensemble_prob({smi!r}, {rp['text']!r}) raised {type(e).__name__}: {e}"
+        return False, "no exception"
+    p = gb.get_ensemble_prob(smi, mol)[0]
     if label.startswith("a molecule outside the ensemble ("):
         kind_ = label.split("(")[1].split(")")[0]
         from symx import gen as _gen
